@@ -21,6 +21,8 @@ def collect(patterns):
         meta, patch = os.path.join(d, 'meta.json'), os.path.join(d, 'patch.diff')
         if os.path.exists(meta) and os.path.exists(patch):
             m = json.load(open(meta))
+            if m.get('equivalent'):
+                continue        # judged not to break the property under the reading the check adopts (see its meta.json); kept as a benign patch
             items.append(('seeded/' + os.path.basename(d), m.get('check_with', m['property']), patch))
     if patterns:
         items = [i for i in items if any(fnmatch.fnmatch(i[0], pt) or pt in i[0] for pt in patterns)]
